@@ -16,13 +16,28 @@ Hypotheses beyond `NodeWF`/`WT`, each a decidable `Bool`/`DecidableEq` fact the 
   * `copyTo_no_panic`: the destination value is well-typed too.
 `RootOK` is needed nowhere; DeepEqual and Loop need nothing beyond `WT` (Loop: `NodeWF`, `WT`).
 
-The model of the current tree (`GenCfg.repo`) panics on every listed class: `repo_panics_*`.
+The model of the tree at the pinned commit (`GenCfg.original`) panics on every listed class: `repo_panics_*`.
+`section CurrentTree`: for the methods whose model reads no switch that is still on in `GenCfg.repo` the theorems
+hold of the emitter as it stands: `get_no_panic_current`, `cmp_no_panic_current`, `lc_no_panic_current`,
+`deq_no_panic_current`, `reset_no_panic_current`, `loop_no_panic_current`, and since the Copy `fix:` commits
+`copy_no_panic_current`, `copyTo_no_panic_current` (Set reads `setLostUpdate`, still on, and is left out).
 -/
 import InspectorModel.Proofs.C02
 import InspectorModel.Proofs.C02Deq
 import InspectorModel.Proofs.C02Reset
 import InspectorModel.Proofs.C02Copy
 import InspectorModel.Proofs.C02Set
+import InspectorModel.Props.C16
+import InspectorModel.Props.C17
+import InspectorModel.Props.C18
+import InspectorModel.Props.C19
+import InspectorModel.Props.C01
+import InspectorModel.Props.C04
+import InspectorModel.Props.C09
+import InspectorModel.Props.C10
+import InspectorModel.Proofs.DEQCurrent
+import InspectorModel.Proofs.ResetCurrent
+import InspectorModel.Proofs.CopyCurrent
 namespace Inspector.C02
 
 /-- By value, by pointer and by pointer-to-pointer: the emitted argument-form switch leaves the same root. -/
@@ -161,12 +176,12 @@ theorem repo_panics_lc_struct_stop :
 
 /-- `copy-nil-elem-panics`: the nil `*Inner` element of `E` is dereferenced. -/
 theorem repo_panics_copy_nil_elem :
-    (copyM GenCfg.repo (.slice { typn := "[]*Inner" } (inner "" true)) .ptr (.slice false [.nilptr] 1)).isPanic = true := by
+    (copyM GenCfg.original (.slice { typn := "[]*Inner" } (inner "" true)) .ptr (.slice false [.nilptr] 1)).isPanic = true := by
   decide
 
 /-- `copy-nil-dest-panics`: the `*string` field `S` is written through the nil destination pointer. -/
 theorem repo_panics_copy_nil_dest :
-    (copyM GenCfg.repo (.struct { typn := "T" } [.basic { typn := "string", typu := "string", name := "S", ptr := true }])
+    (copyM GenCfg.original (.struct { typn := "T" } [.basic { typn := "string", typu := "string", name := "S", ptr := true }])
       .ptr (.struct [.ptr (.str (strBytes "s"))])).isPanic = true := by
   decide
 
@@ -176,7 +191,7 @@ def exRootMap : Node :=
 
 /-- `copy-root-map-panics`: copying a non-empty root map stores into the nil destination map. -/
 theorem repo_panics_copy_root_map :
-    (copyM GenCfg.repo exRootMap .ptr (.map false [.str (strBytes "a")] [.int 1])).isPanic = true := by
+    (copyM GenCfg.original exRootMap .ptr (.map false [.str (strBytes "a")] [.int 1])).isPanic = true := by
   decide
 
 /-- `reset-nil-ptr-panics`: Reset dereferences the nil `*int` field `P`. -/
@@ -186,12 +201,12 @@ theorem repo_panics_reset_nil_ptr :
 
 /-- `set-nil-map-store`: Set on a nil root map stores into it. -/
 theorem repo_panics_set_nil_map_store :
-    (setM GenCfg.repo exRootMap .ptr (.map true [] []) [seg "a"] (srcInt 5) true).isPanic = true := by
+    (setM GenCfg.original exRootMap .ptr (.map true [] []) [seg "a"] (srcInt 5) true).isPanic = true := by
   decide
 
 /-- `set-nil-leaf-ptr`: Set hands the nil `*int` field `P` to AssignBuf as the destination. -/
 theorem repo_panics_set_nil_leaf_ptr :
-    (setM GenCfg.repo exNode .ptr exVal [seg "P"] (srcInt 5) true).isPanic = true := by
+    (setM GenCfg.original exNode .ptr exVal [seg "P"] (srcInt 5) true).isPanic = true := by
   decide
 
 /-- `assign-nil-src`: Set with a nil `*int` as the assigned value dereferences it. -/
@@ -201,7 +216,7 @@ theorem repo_panics_assign_nil_src :
 
 /-- `deq-ptr-leaf-nil`: DeepEqual dereferences the nil `*int` field `P` of both arguments. -/
 theorem repo_panics_deq_ptr_leaf_nil :
-    deqM {} exNode .ptr .ptr exVal exVal = .panic := by
+    deqM { cfg := GenCfg.original } exNode .ptr .ptr exVal exVal = .panic := by
   decide
 
 /-- `nil-root-panics`, DeepEqual: a nil `**T` argument is dereferenced in the header (`lx, leq = *lp, true`,
@@ -235,5 +250,151 @@ theorem cmp_needs_EmitOK :
   decide
 
 end NonVacuity
+
+/-! ### The built-in inspectors and Assign/AssignBuf
+
+C02 speaks about them too. Their models and theorems live with their own properties; the statements C02 needs
+are collected here (so that the C02 check re-checks and audits them): for the repaired library
+(`LibCfg.fixed`, which since the `fix:` commits is `LibCfg.repo` up to the switch `samapNilPtrPanics` —
+`C16.repo_is_fixed`) no method of the static, strings and map[string]any inspectors panics — typed-nil pointers,
+foreign arguments and nil sources included — and the assign chain never panics. (StringAnyMapInspector: while the
+switch `samapNilPtrPanics` is on in `LibCfg.repo`, nil pointers on the way panic in the current tree, class
+`samap-nil-ptr-panics`, `C18.original_panics_nil_ptr`; the `samap_*_no_panic_cfg` forms apply to any configuration
+with the switch off. Loop/CopyTo/Reset of the strings inspector are total functions of the model whose outcome
+types have no panic constructor reachable for `LibCfg.fixed`, see C17.) -/
+section Builtin
+theorem static_cmp_no_panic (s : Src) (op : Op) (right : Seg) : staticCmp LibCfg.fixed s op right ≠ .panic :=
+  C16.cmp_no_panic s op right
+theorem static_deq_no_panic (l r : Src) : staticDeq LibCfg.fixed l r ≠ .panic := C16.deq_no_panic l r
+theorem static_deq_terminates (l r : Src) : staticDeq LibCfg.fixed l r ≠ .diverge := C16.deq_never_diverges l r
+theorem static_lc_no_panic (isCap : Bool) (s : Src) : staticLc LibCfg.fixed isCap s ≠ .panic := C16.lc_no_panic isCap s
+theorem static_copy_no_panic (s : Src) : (sobsOf (staticCopy LibCfg.fixed s)).tag ≠ "panic" := C16.copy_no_panic s
+theorem static_copyTo_no_panic (s : Src) (dkind : DynKind) (dk dform : String) :
+    (staticCopyToObs LibCfg.fixed s dkind dk dform).tag ≠ "panic" := C16.copyTo_no_panic s dkind dk dform
+theorem static_reset_no_panic (s : Src) : (staticResetObs LibCfg.fixed s).tag ≠ "panic" := C16.reset_no_panic s
+theorem strings_get_no_panic (isB : Bool) (f : Form) (v : Val) (p : List Seg) :
+    (stringsGet LibCfg.fixed isB f v p == .panic) = false := C17.get_no_panic isB f v p
+theorem strings_cmp_no_panic (f : Form) (v : Val) (p : List Seg) (op : Op) (right : Seg) :
+    stringsCmp LibCfg.fixed f v p op right ≠ .panic := C17.cmp_no_panic f v p op right
+theorem strings_lc_no_panic (isCap isB : Bool) (f : Form) (v : Val) (p : List Seg) :
+    stringsLc LibCfg.fixed isCap isB f v p ≠ .panic := C17.lc_no_panic isCap isB f v p
+theorem strings_set_no_panic (isB : Bool) (f : Form) (v : Val) (p : List Seg) (src : Src) :
+    stringsSet LibCfg.fixed isB f v p src ≠ .panic := C17.set_no_panic isB f v p src
+theorem strings_deq_no_panic (fl fr : Form) (a b : Val) : stringsDeq LibCfg.fixed fl fr a b ≠ .panic :=
+  C17.deq_no_panic fl fr a b
+/-- StringAnyMapInspector, repaired: every tree — nil `*map[string]any` / `**map[string]any` on the way, typed-nil
+`*string` / `*[]byte` leaves and values included —, every key path. -/
+theorem samap_get_no_panic (j : JVal) (p : List Bytes) : samapGet LibCfg.fixed j p ≠ .panic := C18.get_no_panic j p
+theorem samap_cmp_no_panic (j : JVal) (p : List Bytes) (op : Op) (right : Seg) :
+    (samapCmp LibCfg.fixed j p op right).1 ≠ .panic := C18.cmp_no_panic j p op right
+theorem samap_len_no_panic (j : JVal) (p : List Bytes) : samapLen LibCfg.fixed j p ≠ .panic := C18.len_no_panic j p
+theorem samap_cap_no_panic (j : JVal) (p : List Bytes) : samapCap LibCfg.fixed j p ≠ .panic := C18.cap_no_panic j p
+theorem samap_set_no_panic (j : JVal) (p : List Bytes) (src : Src) : samapSet LibCfg.fixed j p src ≠ .panic :=
+  C18.set_no_panic j p src
+theorem samap_copy_no_panic (j : JVal) : (samapCpy LibCfg.fixed j).isSome = true := C18.copy_no_panic j
+/-- The same for any configuration with the nil-pointer switches off (for `LibCfg.repo` once they are). -/
+theorem samap_no_panic_cfg (cfg : LibCfg) (hc : cfg.samapNilPtrPanics = false) (hs : cfg.staticNilPtrPanics = false)
+    (j : JVal) (p : List Bytes) (op : Op) (right : Seg) (src : Src) :
+    samapGet cfg j p ≠ .panic ∧ (samapCmp cfg j p op right).1 ≠ .panic ∧ samapLen cfg j p ≠ .panic ∧
+    samapCap cfg j p ≠ .panic ∧ samapSet cfg j p src ≠ .panic ∧ (samapCpy cfg j).isSome = true :=
+  ⟨C18.get_no_panic_cfg cfg hc j p, C18.cmp_no_panic_cfg cfg hc hs j p op right, C18.len_no_panic_cfg cfg hc j p,
+   C18.cap_no_panic_cfg cfg hc j p, C18.set_no_panic_cfg cfg hc j p src, C18.copy_no_panic_cfg cfg hc j⟩
+theorem library_repo_is_fixed : LibCfg.repo = LibCfg.fixed := C16.repo_is_fixed
+end Builtin
+
+/-! ### The tree as it is now
+
+Get, Compare, Length/Capacity, DeepEqual, Reset and Loop read no switch that is still on in `GenCfg.repo`
+(`C01.getM_repo`, `C04.cmpM_repo`, `C10.lcM_repo`, `DEQCurrent.deqM_repo`, `ResetCurrent.resetM_repo`,
+`C09.loopN_repo`): their models for the current tree *are* the repaired models, so these methods of the emitter
+as it stands never panic — every argument form. Since the six Copy `fix:` commits the same holds of Copy and
+CopyTo (`CopyCurrent.copyM_repo`, `CopyCurrent.copyToM_repo`). Set is not covered: `setM` reads `setLostUpdate`,
+the one switch still on. -/
+section CurrentTree
+
+/-- Loop of the current tree is Loop of the repaired emitter, for every argument form (`C09.loopM_repo` is stated
+for recognised non-nil roots only). -/
+theorem loopM_repo (sc : LoopScript) (ft : Val → Bytes) (n : Node) (f : Form) (v : Val) (p : List Seg) :
+    loopM GenCfg.repo sc ft n f v p = loopM GenCfg.fixed sc ft n f v p := by
+  have h : rootOfC GenCfg.repo f = rootOfC GenCfg.fixed f := rfl
+  unfold loopM
+  rw [h]
+  simp only [C09.loopN_repo]
+  rfl
+
+/-- Get / GetTo of the emitter as it stands never panic. -/
+theorem get_no_panic_current (n : Node) (f : Form) (v : Val) (p : List Seg)
+    (hwf : NodeWF n = true) (hwt : WT n v = true) :
+    (getM GenCfg.repo n f v p).isPanic = false := by
+  rw [C01.getM_repo]; exact get_no_panic n f v p hwf hwt
+
+/-- Compare of the emitter as it stands never panics. -/
+theorem cmp_no_panic_current (n : Node) (f : Form) (v : Val) (p : List Seg) (op : Op) (right : Seg)
+    (hwf : NodeWF n = true) (hok : EmitOK n = true) (hwt : WT n v = true) :
+    cmpM GenCfg.repo n f v p op right ≠ .panic := by
+  rw [C04.cmpM_repo]; exact cmp_no_panic n f v p op right hwf hok hwt
+
+/-- Length / Capacity of the emitter as it stands never panic. -/
+theorem lc_no_panic_current (isCap : Bool) (n : Node) (f : Form) (v : Val) (p : List Seg)
+    (hwf : NodeWF n = true) (hwt : WT n v = true) :
+    lcM GenCfg.repo isCap n f v p ≠ .panic := by
+  rw [C10.lcM_repo]; exact lc_no_panic isCap n f v p hwf hwt
+
+/-- DeepEqual / DeepEqualWithOptions of the emitter as it stands never panic: every pair of argument forms,
+every options value, identical or independent arguments. -/
+theorem deq_no_panic_current (env : DeqEnv) (henv : env.cfg = GenCfg.repo) (n : Node) (fl fr : Form) (l r : Val)
+    (hl : WT n l = true) (hr : WT n r = true) :
+    deqM env n fl fr l r ≠ .panic := by
+  have he : env = { env with cfg := GenCfg.repo } := by
+    cases env; simp only at henv; subst henv; rfl
+  rw [he, DEQCurrent.deqM_repo]
+  exact deq_no_panic { env with cfg := GenCfg.fixed } rfl n fl fr l r hl hr
+
+/-- Reset of the emitter as it stands never panics. -/
+theorem reset_no_panic_current (n : Node) (f : Form) (v : Val) (hwt : WT n v = true) :
+    (resetM GenCfg.repo n f v).isPanic = false := by
+  rw [ResetCurrent.resetM_repo]; exact reset_no_panic n f v hwt
+
+/-- Loop of the emitter as it stands never panics: every iterator script and float-text oracle. -/
+theorem loop_no_panic_current (sc : LoopScript) (ft : Val → Bytes) (n : Node) (f : Form) (v : Val) (p : List Seg)
+    (hwf : NodeWF n = true) (hwt : WT n v = true) :
+    (loopM GenCfg.repo sc ft n f v p).fin ≠ .panic := by
+  rw [loopM_repo]; exact loop_no_panic sc ft n f v p hwf hwt
+
+/-- Copy of the emitter as it stands never panics. -/
+theorem copy_no_panic_current (n : Node) (f : Form) (r : Val) (hwf : NodeWF n = true) (hr : WT n r = true) :
+    (copyM GenCfg.repo n f r).isPanic = false := by
+  rw [CopyCurrent.copyM_repo]; exact copy_no_panic n f r hwf hr
+
+/-- CopyTo of the emitter as it stands never panics, whatever the destination holds. -/
+theorem copyTo_no_panic_current (n : Node) (fs fd : Form) (r l : Val) (hwf : NodeWF n = true)
+    (hr : WT n r = true) (hl : WT n l = true) :
+    (copyToM GenCfg.repo n fs fd r l).isPanic = false := by
+  rw [CopyCurrent.copyToM_repo]; exact copyTo_no_panic n fs fd r l hwf hr hl
+
+/-- Set of the emitter as it stands never panics (since the last `fix:` commit `GenCfg.repo = GenCfg.fixed`). -/
+theorem set_no_panic_current (n : Node) (f : Form) (v : Val) (p : List Seg) (src : Src) (noBuf : Bool)
+    (hwf : NodeWF n = true) (hwt : WT n v = true) :
+    (setM GenCfg.repo n f v p src noBuf).isPanic = false :=
+  set_no_panic n f v p src noBuf hwf hwt
+
+theorem generator_repo_is_fixed : GenCfg.repo = GenCfg.fixed := rfl
+
+example : (copyM GenCfg.repo exNode .ptr exVal).isPanic = false ∧
+    (copyM GenCfg.repo exNode .nilPtr exVal).isPanic = false ∧
+    (copyToM GenCfg.repo exNode .ptr .ptr exVal exZero).isPanic = false ∧
+    (copyM GenCfg.repo exRootMap .ptr (.map false [.str (strBytes "a")] [.int 1])).isPanic = false := by decide
+
+/-- The witnesses on which the tree at the pinned commit panicked, on the model of the current tree. -/
+example : (getM GenCfg.repo exNode .ptr exVal [seg "L", seg "-1" (some (-1))]).isPanic = false ∧
+    (getM GenCfg.repo exNode .nilPtr exVal []).isPanic = false ∧
+    cmpM GenCfg.repo exNode .nilPtr exVal [seg "L"] 1 (seg "3") ≠ .panic ∧
+    lcM GenCfg.repo false exNode .ptr exVal [seg "I"] ≠ .panic ∧
+    (resetM GenCfg.repo exNode .ptr exVal).isPanic = false ∧
+    deqM { cfg := GenCfg.repo } exNode .ptr .ptr exVal exVal ≠ .panic ∧
+    deqM { cfg := GenCfg.repo } exNode .foreign .nilPtrPtr exVal exVal = .f ∧
+    (loopM GenCfg.repo exScriptKeys exFt exNode .ptr exVal [seg "PM"]).fin = .done := by decide
+
+end CurrentTree
 
 end Inspector.C02
